@@ -35,7 +35,7 @@ def to_rows(vals):
 
 def run(ctx):
     depth = 2 if ctx.quick else 3
-    cfg = ctx.cfg('MC_Contract', 'INIT Init\nNEXT Next\nCONSTANTS NChunks = 32 StrDepth = %d\nINVARIANTS TableInv Emit\nCHECK_DEADLOCK FALSE\n' % depth)
+    cfg = ctx.cfg('MC_Contract', 'INIT Init\nNEXT Next\nCONSTANTS NChunks = 32 StrDepth = %d Depth12 = %d Depth8 = %d\nINVARIANTS TableInv Emit\nCHECK_DEADLOCK FALSE\n' % (depth, depth + 1, depth + 2))
     vals = ctx.generate('MC_Contract', cfg, workers=vlib.NCPU, timeout=3000)
     rows = to_rows(vals)
     # seeded random byte strings and mutations of valid strings, in addition to the exhaustive short ones
@@ -99,8 +99,8 @@ def run(ctx):
 
 
 RULE = ('fault enumeration by TLC from Contract.tla: every table entry (120: constructors, members, validating functions, line / circle / '
-        'polygon / model objects) x argument position x 17 special value classes; every byte string of length <= StrDepth over a 28-symbol '
-        'abstract alphabet for each of 16 parsers; for text and binary nearest-neighbour saves truncation, 5 byte-fault kinds and 7 field-value '
+        'polygon / model objects) x argument position x 17 special value classes; every byte string of length <= StrDepth (2 quick, 3 thorough) over a 28-symbol '
+        'abstract alphabet, <= StrDepth + 1 over 12 symbols and <= StrDepth + 2 over 8 symbols for each of 16 parsers; for text and binary nearest-neighbour saves truncation, 5 byte-fault kinds and 7 field-value '
         'faults at every offset / field 0..400; for MagneticModel and GravityModel metadata files truncation and 3 byte faults at every offset, '
         'dropped / duplicated keyword lines and 11 value classes for every keyword, for their coefficient files truncation and 4 byte faults at '
         'every offset and 8 header-word classes at every word; the unfaulted files as controls; plus seeded mutations of valid strings. '
